@@ -332,9 +332,42 @@ func runC15(r *mc.Report, e *Env) {
 			r.Violation("single-item-roundtrip", "decodeUtpContent", fmt.Sprintf("len %d: err=%v", n, err), c15Case{Kind: "utp", Ver: 1, Bytes: fmt.Sprintf("len=%d", n)})
 		}
 	}
+	c15Senders(r, e)
+}
+
+// (4) the senders of a content stream: whatever the offer kind (gossiped, traced through the RPC,
+// persisted keys) and the negotiated version, what the real processOffer writes on the uTP
+// stream for the keys a peer accepted must be the join of exactly their contents - the stream
+// is read back by a real uTP socket and split by the strict reference (C09's offering fixture:
+// every non-empty subset of 1..3 offered keys accepted, kinds x versions).
+func c15Senders(r *mc.Report, e *Env) {
+	if msg := inBubble(func() {
+		nw := newC09Net()
+		defer nw.close()
+		c09OfferingCases(e.Thorough(), func(c c09Case) {
+			if c.Shape != "subset" {
+				return
+			}
+			r.Count("sender_streams", 1)
+			c09Offering(r, nw, c)
+		})
+	}); msg != "" {
+		r.EngineError("C15 senders: bubble ended with: " + msg)
+	}
 }
 
 func replayC15(r *mc.Report, e *Env, raw json.RawMessage) {
+	var oc c09Case
+	if err := json.Unmarshal(raw, &oc); err == nil && oc.Part == "offering" {
+		if msg := inBubble(func() {
+			nw := newC09Net()
+			defer nw.close()
+			c09Offering(r, nw, oc)
+		}); msg != "" {
+			r.EngineError(msg)
+		}
+		return
+	}
 	var c c15Case
 	if err := json.Unmarshal(raw, &c); err != nil {
 		panic(err)
